@@ -61,8 +61,8 @@ def _(c):
               label='no-event-no-change')
     main.step('implies(not %s, forall(lambda r, k: implies(in_view(q, r, k), pend(q, r, k) == head(pend(q, r, k)))) or %s)' % (QUE, FIRE),
               label='queue-untouched-unless-delivery-or-firing')
-    # dt rules fire on the next pass only after a volume step or a jump to a grid time, not after a reaction or a queue delivery
-    main.step('rule_step == ite(step_type == 1 or step_type == 3, 1, 0)', label='rule-step-flag')
+    # C09: a dt / ode rule runs exactly once per elapsed delta step: the next pass is a rule step iff the delta (volume) clock fired
+    main.step('rule_step == ite(step_type == 1, 1, 0)', label='rule-step-exactly-when-the-delta-clock-fires')
     main.step('forall(lambda m, s: implies(head(current_index) <= m and m < current_index and 0 <= s and s < num_species, '
               'c_results[m, s] == %s[s]))' % XR, label='rows-get-the-pre-event-state')
     main.step('forall(lambda m, s: implies((m < head(current_index) or m >= current_index), c_results[m, s] == head(c_results[m, s])))',
